@@ -1,4 +1,5 @@
 import EV.Drv.Notif
+import EV.Drv.Index
 
 /-!
 `evdrv <suite>`: reads one operation per line on stdin, applies it to the Lean model of that
@@ -27,4 +28,5 @@ def main (args : List String) : IO UInt32 := do
   match args with
   | ["notif"] => Drv.loop stdin stdout (Drv.NotifD.stepLine 0) EV.Notif.init; return 0
   | ["notif-orig"] => Drv.loop stdin stdout (Drv.NotifD.stepLine 1) EV.Notif.init; return 0
+  | ["index"] => Drv.loop stdin stdout Drv.IndexD.stepLine {}; return 0
   | _ => IO.eprintln "usage: evdrv <suite>"; return 2
